@@ -79,3 +79,167 @@ def lower_int_cmp(facts):
                          "targets": [["0", gt_t]], "otherwise": eq_t, "span": span}})
             n += 1
     return n
+
+
+# ---------------------------------------------------------------------- Option / Result combinators with closures that hold logic
+
+_COMB = {
+    # name suffix -> (enum, variant the closure is applied to, how the closure's result becomes the call's result)
+    "std::option::Option::<T>::filter": ("Option", "Some", "filter"),
+    "std::option::Option::<T>::map": ("Option", "Some", "wrap"),
+    "std::option::Option::<T>::and_then": ("Option", "Some", "flat"),
+    "std::option::Option::<T>::unwrap_or_else": ("Option", "None", "value"),
+    "std::result::Result::<T, E>::map": ("Result", "Ok", "wrap"),
+    "std::result::Result::<T, E>::map_err": ("Result", "Err", "wrap"),
+    "std::result::Result::<T, E>::and_then": ("Result", "Ok", "flat"),
+}
+_VARIANTS = {"Option": (("None", 0), ("Some", 1)), "Result": (("Ok", 0), ("Err", 1))}
+
+
+def _split_args(ty):
+    i = ty.find("<")
+    inner, depth, cur, out = ty[i + 1:-1], 0, "", []
+    for ch in inner:
+        if ch in "<([":
+            depth += 1
+        elif ch in ">)]":
+            depth -= 1
+        if ch == "," and depth == 0:
+            out.append(cur.strip())
+            cur = ""
+        else:
+            cur += ch
+    if cur.strip():
+        out.append(cur.strip())
+    return out
+
+
+def _closure_has_logic(facts, cpath):
+    f = facts.fns.get(cpath)
+    if f is None:
+        return False
+    for b in f["blocks"]:
+        if b["cleanup"]:
+            continue
+        t = b["term"]
+        if t["k"] == "switch":
+            return True
+        if t["k"] == "call" and t["func"].get("k") == "fn":
+            n = strip_generics(t["func"].get("resolved") or t["func"]["path"])
+            if n in facts.fns and facts.fns[n]["kind"] in ("Fn", "AssocFn"):
+                return True
+    return False
+
+
+def desugar_combinators(facts):
+    """`opt.filter(|v| ..)`, `.map(..)`, `.and_then(..)`, `.unwrap_or_else(..)`, `res.map / map_err / and_then(..)` whose closure
+    holds logic (a branch or a call into the crate) are written out as the match they abbreviate, with the closure called
+    directly (the inliner then splices its body in).  What the closure decides becomes ordinary control flow of the
+    function, which is what the rule packs and the range engine read.  Returns the number of rewritten calls."""
+    n = 0
+    for path, f in list(facts.fns.items()):
+        if f["kind"] not in ("Fn", "AssocFn", "Closure"):
+            continue
+        blocks = f["blocks"]
+        # closure locals -> closure body path (unique aggregate assignment)
+        clos_of = {}
+        for b in blocks:
+            for st in b["stmts"]:
+                if st["k"] == "assign" and st["rv"]["k"] == "aggregate" and st["rv"].get("agg") == "closure" and not st["place"]["proj"]:
+                    clos_of.setdefault(st["place"]["local"], []).append(st["rv"].get("closure"))
+        for bi in range(len(blocks)):
+            blk = blocks[bi]
+            t = blk["term"]
+            if t["k"] != "call" or t["func"].get("k") != "fn" or t.get("target") is None:
+                continue
+            spec = _COMB.get(t["func"].get("path"))
+            if spec is None or len(t["args"]) != 2:
+                continue
+            O, F = t["args"]
+            if O.get("k") not in ("move", "copy") or O["place"]["proj"] or F.get("k") not in ("move", "copy") or F["place"]["proj"]:
+                continue
+            cps = clos_of.get(F["place"]["local"], [])
+            if len(cps) != 1 or not _closure_has_logic(facts, cps[0]):
+                continue
+            cpath = cps[0]
+            g = facts.fns[cpath]
+            enum, act, how = spec
+            oty = O["place"]["ty"]
+            targs = _split_args(oty)
+            act_idx = dict(_VARIANTS[enum])[act]
+            (pas, pas_idx), = [(v, i) for v, i in _VARIANTS[enum] if v != act]
+            dest, target, span = t["dest"], t["target"], t.get("span")
+            dty = dest["ty"]
+            adt = "std::option::Option" if enum == "Option" else "std::result::Result"
+            act_ty = None if (enum == "Option" and act == "None") else (targs[0] if act in ("Some", "Ok") else targs[1])
+            pas_ty = None if (enum == "Option" and pas == "None") else (targs[0] if pas in ("Some", "Ok") else targs[1])
+            rty = g["ret_ty"]
+            o = O["place"]["local"]
+            L = f["locals"]
+
+            def new_local(ty):
+                L.append({"ty": ty, "mut": True})
+                return len(L) - 1
+
+            def pl(local, ty, proj=None):
+                return {"local": local, "proj": proj or [], "ty": ty}
+
+            def payload(variant, idx, ty):
+                return pl(o, ty, [{"k": "downcast", "variant": variant, "idx": idx}, {"k": "field", "i": 0, "ty": ty, "name": "0", "adt": adt.rsplit("::", 1)[-1]}])
+
+            def agg(variant, idx, ops):
+                return {"k": "aggregate", "agg": "adt", "adt": adt, "variant": variant, "variant_idx": idx, "fields": ["0"] if ops else [], "ops": ops}
+            d = new_local("isize")
+            nb = len(blocks)
+            B_act, B_pas, B_after = nb, nb + 1, nb + 2
+            blk["stmts"].append({"k": "assign", "place": pl(d, "isize"), "rv": {"k": "discr", "place": pl(o, oty)}, "span": span})
+            blk["term"] = {"k": "switch", "discr": {"k": "move", "place": pl(d, "isize")}, "discr_ty": "isize",
+                           "targets": [[str(act_idx), B_act]], "otherwise": B_pas, "span": span}
+            # active variant: call the closure directly
+            st_act = []
+            if act_ty is not None:
+                p = new_local(act_ty)
+                st_act.append({"k": "assign", "place": pl(p, act_ty), "rv": {"k": "use", "op": {"k": "move", "place": payload(act, act_idx, act_ty)}}, "span": span})
+                if how == "filter":
+                    pref = new_local("&" + act_ty)
+                    st_act.append({"k": "assign", "place": pl(pref, "&" + act_ty), "rv": {"k": "ref", "place": pl(p, act_ty), "mut": False, "kind": "Shared"}, "span": span})
+                    tup_ty, tup_ops = "(&%s,)" % act_ty, [{"k": "move", "place": pl(pref, "&" + act_ty)}]
+                else:
+                    tup_ty, tup_ops = "(%s,)" % act_ty, [{"k": "move", "place": pl(p, act_ty)}]
+            else:
+                p = None
+                tup_ty, tup_ops = "()", []
+            tup = new_local(tup_ty)
+            st_act.append({"k": "assign", "place": pl(tup, tup_ty), "rv": {"k": "aggregate", "agg": "tuple", "ops": tup_ops}, "span": span})
+            r = new_local(rty)
+            call = {"k": "call",
+                    "func": {"k": "fn", "path": "std::ops::FnOnce::call_once", "inst": "desugared", "local": False, "crate": "core",
+                             "resolved": cpath, "resolved_inst": cpath, "resolved_local": True, "resolved_kind": "Item"},
+                    "args": [F, {"k": "move", "place": pl(tup, tup_ty)}], "dest": pl(r, rty), "target": B_after, "unwind": None,
+                    "span": span, "fn_span": t.get("fn_span")}
+            blocks.append({"cleanup": False, "stmts": st_act, "term": call})
+            # passive variant
+            st_pas = []
+            if how == "value":
+                st_pas.append({"k": "assign", "place": dest, "rv": {"k": "use", "op": {"k": "move", "place": payload(pas, pas_idx, pas_ty)}}, "span": span})
+            elif pas_ty is None:
+                st_pas.append({"k": "assign", "place": dest, "rv": agg(pas, pas_idx, []), "span": span})
+            else:
+                st_pas.append({"k": "assign", "place": dest, "rv": agg(pas, pas_idx, [{"k": "move", "place": payload(pas, pas_idx, pas_ty)}]), "span": span})
+            blocks.append({"cleanup": False, "stmts": st_pas, "term": {"k": "goto", "target": target}})
+            # after the closure
+            if how == "wrap":
+                blocks.append({"cleanup": False, "stmts": [{"k": "assign", "place": dest, "rv": agg(act, act_idx, [{"k": "move", "place": pl(r, rty)}]), "span": span}],
+                               "term": {"k": "goto", "target": target}})
+            elif how in ("flat", "value"):
+                blocks.append({"cleanup": False, "stmts": [{"k": "assign", "place": dest, "rv": {"k": "use", "op": {"k": "move", "place": pl(r, rty)}}, "span": span}],
+                               "term": {"k": "goto", "target": target}})
+            else:   # filter
+                B_keep = nb + 3
+                blocks.append({"cleanup": False, "stmts": [], "term": {"k": "switch", "discr": {"k": "move", "place": pl(r, rty)}, "discr_ty": "bool",
+                                                                     "targets": [["0", B_pas]], "otherwise": B_keep, "span": span}})
+                blocks.append({"cleanup": False, "stmts": [{"k": "assign", "place": dest, "rv": agg("Some", 1, [{"k": "move", "place": pl(p, act_ty)}]), "span": span}],
+                               "term": {"k": "goto", "target": target}})
+            f.setdefault("desugared", []).append(t["func"]["path"].rsplit("::", 1)[-1])
+            n += 1
+    return n
